@@ -20,14 +20,14 @@ import (
 )
 
 type specCase struct {
-	ID      int             `json:"id"`
-	Doc     json.RawMessage `json:"doc,omitempty"`  // a JSON document
-	File    string          `json:"file,omitempty"` // or a fixture path relative to /repo (JSON or YAML)
-	Repeats int             `json:"repeats,omitempty"`
-	Loose   bool            `json:"loose,omitempty"` // also run with StrictPathParamUniqueness off
-	Defaults bool           `json:"defaults,omitempty"` // also run through the package-level defaults
-	Origin  string          `json:"origin,omitempty"`
-	Edits   []string        `json:"edits,omitempty"`
+	ID       int             `json:"id"`
+	Doc      json.RawMessage `json:"doc,omitempty"`  // a JSON document
+	File     string          `json:"file,omitempty"` // or a fixture path relative to /repo (JSON or YAML)
+	Repeats  int             `json:"repeats,omitempty"`
+	Loose    bool            `json:"loose,omitempty"`    // also run with StrictPathParamUniqueness off
+	Defaults bool            `json:"defaults,omitempty"` // also run through the package-level defaults
+	Origin   string          `json:"origin,omitempty"`
+	Edits    []string        `json:"edits,omitempty"`
 }
 
 type specRun struct {
